@@ -771,7 +771,8 @@ func (t *tread) handle(cs *connState) message {
 				return linux.EINVAL
 			}
 
-			if t.Offset+uint64(t.Count) > uint64(len(ref.pendingXattr.buf)) {
+			// N.B. t.Offset+uint64(t.Count) may wrap around.
+			if size := uint64(len(ref.pendingXattr.buf)); t.Offset > size || uint64(t.Count) > size-t.Offset {
 				return linux.EINVAL
 			}
 
